@@ -602,6 +602,10 @@ def precond(im, o, last=True, in_block=False):
         elif n == "SetId":
             if not 0 <= o[2] < size[o[1]] or not -3 <= o[3] < 40:
                 return False
+            ob = im.objs[o[1]][o[2]]
+            if o[1] in "GP" and getattr(ob, "_model", None) is not None and not im.listed(o[1], o[2]) \
+                    and not VARIANT["idhook_gene" if o[1] == "G" else "idhook_group"]:
+                return False            # (a gene removed as an orphan keeps _model) only the repaired setter is modelled
         else:
             return False
         if not last and final_only(im, o):
@@ -954,12 +958,32 @@ def symptoms(ob):
     return sorted(out)
 
 
+def probed_path(o):
+    """The probed code path (VARIANT key) an operation exercises, if any."""
+    if o[0] == "SetId":
+        return {"G": "idhook_gene", "P": "idhook_group", "R": "rxn_id_atomic"}.get(o[1])
+    if o[0] == "RemoveGroups":
+        return "rmgroups_str" if o[2] == "id" else "nested"
+    if o[0] == "RemoveRxn":
+        return "orphan"
+    if o[0] == "AddGroups":
+        return "addgene"
+    if o[0] == "Exit":
+        return "ctx_groups"
+    return None
+
+
 def op_features(case, impl, first):
     """Features of the failing step of a (shrunk) case that the known-finding signatures refer to."""
     o = case["ops"][first - 1] if first >= 1 else ["init"]
     obs0, steps = impl
     before = steps[first - 2] if first >= 2 else obs0
     f = {}
+    path = probed_path(o)
+    if path:
+        # a known finding is only recognised while the probe says that its code path is NOT repaired: on a repaired
+        # tree the same symptom is a regression and is reported
+        f["code_path"], f["repaired"] = path, bool(VARIANT[path])
     if o[0] == "SetId":
         c, k, i = o[1], o[2], o[3]
         key = {"R": "rx", "M": "mt", "G": "gn", "P": "gp"}[c]
